@@ -254,6 +254,8 @@ class Model:
             na += merge_boolean_returns(fn)
             if f.module.name in ('pane.field', 'pane.util', 'pane.io', 'pane.annotations'):
                 na += split_conditional_rebind_return(fn)
+                from .expand import ladder_result_to_returns
+                na += ladder_result_to_returns(fn)
                 if f.cls is not None:
                     na += fold_temporaries_into_return(fn)
             na += spread_kwargs_dicts(fn)
@@ -267,7 +269,8 @@ class Model:
                     return None
                 return g.node
             from .expand import inline_expression_helpers
-            na += inline_expression_helpers(fn, lambda call, f=f, lookup=lookup: (lambda g: g if g is not None and (self.functions.get(self.resolve(call.func, f.module, f) or '') or f).module is f.module else None)(lookup(call)))
+            na += inline_expression_helpers(fn, lambda call, f=f, lookup=lookup: (lambda g: g if g is not None and (self.functions.get(self.resolve(call.func, f.module, f) or '') or f).module is f.module else None)(lookup(call)),
+                                            (lambda nm, f=f: (lambda m_: m_.node if m_ is not None and isinstance(m_.node, ast.FunctionDef) else None)(self.find_method(f.cls.qualname, nm))) if f.cls is not None else None)
             ni = inline_import_helpers(fn, lookup)
             if ni:
                 na += ni
@@ -278,6 +281,9 @@ class Model:
                 # (the converter passes are analysed on their control flow as written: their loops carry try / except)
                 na += counting_loops_to_sum(fn)
                 na += loops_to_comprehensions(fn)
+            if f.cls is not None and f.module.name in ('pane.classes',):
+                from .expand import locals_to_attributes
+                na += locals_to_attributes(fn)
             if f.cls is not None:
                 for _i in range(4):
                     k_ = fold_attribute_aliases(fn)
